@@ -855,43 +855,143 @@ func ruleV5(c *Ctx) {
 		c.anchorFail("resolve.Scope constants not found")
 		return
 	}
+	oi := opcodes(c)
+	if oi == nil {
+		return
+	}
+	scopeNames := map[int64]string{}
+	for n, v := range scopes {
+		scopeNames[v] = n
+	}
+	// caseScopes: which opcodes does the function emit when the binding's scope is S?  Computed on the SSA
+	// form (switch and if/else chains look alike there): a forward propagation of the set of scope values
+	// still possible at each block, refined by the == / != tests on the loaded Scope field.
 	caseScopes := func(fname string) (map[string][]string, token.Pos) {
-		fd, pk := c.P.FuncDecl(compilePkg, fname)
 		out := map[string][]string{}
-		if fd == nil {
+		fn := c.P.Func(compilePkg, fname)
+		if fn == nil {
 			c.anchorFail("%s not found", fname)
 			return out, token.NoPos
 		}
-		ast.Inspect(fd.Body, func(n ast.Node) bool {
-			sw, ok := n.(*ast.SwitchStmt)
-			if !ok || sw.Tag == nil {
-				return true
-			}
-			if _, tn := namedOf(pk.TypesInfo.TypeOf(sw.Tag)); tn != "Scope" {
-				return true
-			}
-			for _, cl := range sw.Body.List {
-				cc := cl.(*ast.CaseClause)
-				var ops []string
-				ast.Inspect(cc, func(m ast.Node) bool {
-					if call, ok := m.(*ast.CallExpr); ok {
-						if sel, ok := call.Fun.(*ast.SelectorExpr); ok && (sel.Sel.Name == "emit1" || sel.Sel.Name == "emit") && len(call.Args) > 0 {
-							if id, ok := call.Args[0].(*ast.Ident); ok {
-								ops = append(ops, id.Name)
+		isScopeLoad := func(v ssa.Value) bool {
+			for i := 0; i < 4; i++ {
+				switch x := v.(type) {
+				case *ssa.UnOp:
+					if x.Op != token.MUL {
+						return false
+					}
+					if fa, ok := x.X.(*ssa.FieldAddr); ok {
+						_, f := ownerField(fa)
+						return f == "Scope"
+					}
+					if al, ok := x.X.(*ssa.Alloc); ok {
+						// a local copy: scope := bind.Scope
+						for _, r := range *al.Referrers() {
+							if st, ok := r.(*ssa.Store); ok && st.Addr == al {
+								v = st.Val
 							}
 						}
+						continue
 					}
-					return true
-				})
-				for _, e := range cc.List {
-					if sel, ok := e.(*ast.SelectorExpr); ok {
-						out[sel.Sel.Name] = ops
-					}
+					return false
+				case *ssa.Field:
+					st := x.X.Type().Underlying().(*types.Struct)
+					return st.Field(x.Field).Name() == "Scope"
+				case *ssa.Convert:
+					v = x.X
+					continue
+				case *ssa.ChangeType:
+					v = x.X
+					continue
 				}
+				return false
 			}
 			return false
+		}
+		all := map[int64]bool{}
+		for _, v := range scopes {
+			all[v] = true
+		}
+		poss := map[*ssa.BasicBlock]map[int64]bool{}
+		refine := func(in map[int64]bool, ifi *ssa.If, branch bool) map[int64]bool {
+			cond, neg := stripNot(ifi.Cond)
+			taken := branch != neg
+			bo, ok := cond.(*ssa.BinOp)
+			if !ok || (bo.Op != token.EQL && bo.Op != token.NEQ) {
+				return in
+			}
+			var k int64
+			var okk bool
+			if isScopeLoad(bo.X) {
+				k, okk = constInt(bo.Y)
+			} else if isScopeLoad(bo.Y) {
+				k, okk = constInt(bo.X)
+			}
+			if !okk {
+				return in
+			}
+			eq := (bo.Op == token.EQL) == taken
+			out := map[int64]bool{}
+			for v := range in {
+				if (v == k) == eq {
+					out[v] = true
+				}
+			}
+			return out
+		}
+		for changed, round := true, 0; changed && round < 50; round++ {
+			changed = false
+			for i, b := range fn.Blocks {
+				var nin map[int64]bool
+				if i == 0 {
+					nin = all
+				} else {
+					nin = map[int64]bool{}
+					for _, p := range b.Preds {
+						pin, ok := poss[p]
+						if !ok {
+							continue
+						}
+						e := pin
+						if len(p.Instrs) > 0 {
+							if ifi, ok := p.Instrs[len(p.Instrs)-1].(*ssa.If); ok && p.Succs[0] != p.Succs[1] {
+								e = refine(pin, ifi, p.Succs[0] == b)
+							}
+						}
+						for v := range e {
+							nin[v] = true
+						}
+					}
+				}
+				old := poss[b]
+				if old == nil || len(old) != len(nin) {
+					poss[b] = nin
+					changed = true
+				}
+			}
+		}
+		eachInstr(fn, func(in ssa.Instruction) {
+			call, ok := in.(*ssa.Call)
+			if !ok || in.Parent() != fn {
+				return
+			}
+			cal := call.Call.StaticCallee()
+			if cal == nil || !strings.HasPrefix(cal.Name(), "emit") || len(call.Call.Args) < 2 {
+				return
+			}
+			k, ok := constInt(call.Call.Args[1])
+			if !ok {
+				return
+			}
+			ps := poss[call.Block()]
+			if len(ps) == len(all) {
+				return // not under any scope test
+			}
+			for v := range ps {
+				out[scopeNames[v]] = append(out[scopeNames[v]], oi.names[k])
+			}
 		})
-		return out, fd.Pos()
+		return out, fn.Pos()
 	}
 	lk, lpos := caseScopes("fcomp.lookup")
 	st, spos := caseScopes("fcomp.set")
